@@ -1116,8 +1116,14 @@ func (r *runningStep) postDeployment(pluginConnection deployer.Plugin) {
 func (r *runningStep) deployStage() (deployer.Plugin, bool, error) {
 	r.logger.Debugf("Deploying stage for step %s/%s", r.runID, r.pluginStepID)
 	r.lock.Lock()
-	r.state = step.RunningStepStateRunning
 	deployInputAvailable := r.deployInputAvailable
+	if deployInputAvailable {
+		r.state = step.RunningStepStateRunning
+	} else {
+		// Report the waiting state before announcing the stage, so that the
+		// workflow does not mistake this step for one that is making progress.
+		r.state = step.RunningStepStateWaitingForInput
+	}
 	r.lock.Unlock()
 
 	r.stageChangeHandler.OnStageChange(
